@@ -114,6 +114,25 @@ def linked_member_cases(self, rng, clauses):
     return out
 
 
+def twin_member_cases(self, rng, clauses):
+    """Members whose names differ only in letter case or normalisation form AND hold the same bytes; one of them is
+    removed (or truncated): the twin that is still there is not the missing member."""
+    out = []
+    for v in (1, 2, 3):
+        for sh in ("DTW", "DC"):
+            for src in ("own", "ref"):
+                n = len(SHAPES[sh])
+                for victim in range(n):
+                    P = (B, 2 * B)[(v + victim) % 2]
+                    sz = (P + 5, 2 * P, 700)[victim % 3]
+                    c = self.mk(rng, P, v, src, 0, clauses, tree=(sh, (sz,) * n), route=("lib", "cli")[victim % 2])
+                    for f in c["tree"]["files"]:
+                        f["ckey"] = "twins"
+                    c["damage"] = [{"file": victim, "kind": ("remove", "remove", "trunc")[(victim + v) % 3], "arg": 0}]
+                    out.append(c)
+    return out
+
+
 def missing_dir_cases(self, rng, clauses):
     """A whole directory of the payload is gone while siblings whose names merely START like the directory's
     name (disc1 / disc10 / disc1.nfo, a / a.b / a0) are intact."""
@@ -385,7 +404,7 @@ class C16(RecheckProp):
                 c["damage"] = [d for d in c["damage"] if d["kind"] not in ("remove", "rmdir", "dangling")]
             out.append(c)
         out += periodic_cases(self, rng, cl) + missing_dir_cases(self, rng, cl) + linked_member_cases(self, rng, cl)
-        out += foreign_plen_cases(self, rng, cl, (0, 2))
+        out += foreign_plen_cases(self, rng, cl, (0, 2)) + twin_member_cases(self, rng, cl)
         out += big_piece_cases(self, rng, cl, [[], [{"file": 0, "kind": "flip", "arg": 2 ** 20 + 7}],
                                                [{"file": 0, "kind": "trunc", "arg": 2 ** 21}]])
         # payload members reached through symbolic links (inside the root / leading outside it), intact and damaged
@@ -453,6 +472,7 @@ class C04(RecheckProp):
             out.append(c)
         out += periodic_cases(self, rng, ["C04.lt100"]) + missing_dir_cases(self, rng, ["C04.lt100"])
         out += linked_member_cases(self, rng, ["C04.lt100"]) + foreign_plen_cases(self, rng, ["C04.lt100"], (1, 2))
+        out += twin_member_cases(self, rng, ["C04.lt100"])
         out += big_piece_cases(self, rng, ["C04.lt100"], [[{"file": 0, "kind": "flip", "arg": 2 ** 20 + 7}],
                                                           [{"file": 0, "kind": "trunc", "arg": 2 ** 21}]])
         lim = 20000 if tier == "thorough" else 1000
